@@ -143,7 +143,7 @@ def run(ctx):
         cfg = cfg.replace("LenSet <- LenAll", "LenSet <- LenQuick").replace("MaxTape = 4", "MaxTape = 3")
     ctx.mc("MC_Wire", cfg, coverage=True, label="parser automaton on all small tapes; all lengths; varint boundaries")
     ctx.require_actions("MC_Wire", ["Feed"])
-    events = core.build_events(ctx, gen_inputs(ctx) if ctx.quick else core.rounds(ctx, gen_inputs, 4))
+    events = core.build_events(ctx, gen_inputs(ctx) if ctx.quick else core.rounds(ctx, gen_inputs, 2))
     events += core.suite_events(ctx, ["tests/test_script.py", "tests/test_helper.py", "tests/test_base_wallet.py", "tests/test_keys.py"],
                                 ("ScriptSer", "ScriptParse", "VarintEnc", "VarintRead"), len(events), limit=150 if ctx.quick else 2000)
     for e in events[:1] + events[1000:1002] + events[-1:]:
